@@ -20,7 +20,7 @@ SHARD_DEADLINE = {'quick': 300, 'thorough': 3300}
 
 def floors(tier):
     f = {'distinct_nontrivial': 6000 if tier == 'quick' else 100000, 'identity_ip_sp_lc_rc': 800, 'identity_cp_acp_gp': 800,
-         'permuted_order_cases': 500}
+         'permuted_order_cases': 500, 'swapped_pair_followups': 300, 'high_grade_blade_cases': 100}
     for o in OPS7:
         f['generic_' + o] = 800
     return f
@@ -45,6 +45,9 @@ def plan(tier, seed):
             U += u(c, 'sparse', 1, count=30, cap=6)
         for c in rng.sample(gen.pqr_all(6, 6), 2) + [{'signature': gen.random_sig(rng, 7)}]:
             U += u(c, 'sparse', 1, count=14, cap=5)
+            U += u(c, 'highgrade', 1, count=20, cap=4)
+        U += u({'p': 5, 'q': 0, 'r': 0}, 'highgrade', 1, count=20, cap=4)
+        U += u({'p': 6, 'q': 0, 'r': 0}, 'highgrade', 1, count=20, cap=4)
         for _ in range(12):
             U += u(gen.random_custom_cfg(rng, rng.choice((2, 3, 3, 4))), 'random', 1, count=14, cap=6)
         for c in gen.NAMED:
@@ -65,6 +68,8 @@ def plan(tier, seed):
         for c in gen.pqr_all(4, 7):
             d = gen.cfg_dim(c)
             U += u(c, 'sparse', 1, count=40 if d <= 5 else 20, cap=6 if d <= 5 else 5)
+            if d >= 5:
+                U += u(c, 'highgrade', 1, count=25, cap=4)
             if d <= 5:
                 U += u(c, 'gradeblocks', 1, count=10, cap=10)
         for _ in range(100):
@@ -92,10 +97,16 @@ def run_shard(shard, ctx):
             algs[name] = (alg, Iso(alg))
             ctx.count('algebras')
         alg, iso = algs[name]
-        for kx, ky in workload.iter_patterns(unit, alg, ctx.rng):
+        for kx0, ky0 in workload.iter_patterns(unit, alg, ctx.rng):
+          # every pattern pair is followed by the opposite pair on the same algebra (a cache entry for (Ky, Kx) must not serve (Kx, Ky))
+          for kx, ky in ((kx0, ky0), (ky0, kx0)) if (kx0 != ky0 and ctx.rng.random() < 0.35) else ((kx0, ky0),):
             if ctx.out_of_time():
                 ctx.count('patterns_skipped_out_of_time')
                 break
+            if (kx, ky) != (kx0, ky0):
+                ctx.count('swapped_pair_followups')
+            if unit['fam'] == 'highgrade':
+                ctx.count('high_grade_blade_cases')
             res = {}
             for op in OPS7 + ['gp']:
                 cid = [name, op, list(kx), list(ky)]
